@@ -144,4 +144,22 @@ void vp_selftest() {
   vp_emit(vp_idx_make(5, 1, 77)); vp_emit(vp_idx_invalid()); vp_emit(vp_idx_offset(vp_idx_make(5, 1, 77))); vp_emit(vp_idx_is_large(vp_idx_make(5, 0, 77)));
   vp_emit(sizeof(MemoryPool)); vp_emit(sizeof(LargeMemoryBlock)); vp_emit(sizeof(MemRegion)); vp_emit(sizeof(FreeBlock)); vp_emit(sizeof(LastFreeBlock)); vp_emit(sizeof(BackRefBlock)); vp_emit(BackRefMain::dataSz); vp_emit(BR_MAX_CNT);
 }
+
+// ---- LargeObjectCache routing (large_objects.cpp): which cache / which bin a size is sent to
+#define LOC (defaultMemPool->extMemPool.loc)
+void vp_loc_setup(unsigned long threshold) { LOC.extMemPool = &defaultMemPool->extMemPool; LOC.setHugeSizeThreshold(threshold); }
+unsigned long vp_loc_threshold() { return LOC.hugeSizeThreshold; }
+long vp_loc_huge_thr_idx() { return LOC.hugeCache.hugeSizeThresholdIdx; }
+long vp_loc_large_thr_idx() { return LOC.largeCache.hugeSizeThresholdIdx; }
+unsigned long vp_loc_default_max_huge() { return LargeObjectCache::defaultMaxHugeSize; }
+void vp_loc_update(int op, unsigned long size) { LOC.updateCacheState((DecreaseOrIncrease)op, size); }
+void* vp_loc_get(unsigned long size) { return LOC.get(size); }
+void vp_loc_put(void* lmb) { LOC.put((LargeMemoryBlock*)lmb); }
+void vp_loc_putlist(void* head) { LOC.putList((LargeMemoryBlock*)head); }
+void vp_loc_realloc(unsigned long oldSize, unsigned long newSize) { LOC.registerRealloc(oldSize, newSize); }
+int vp_loc_in_range(unsigned long size) { return LOC.sizeInCacheRange(size); }
+void* vp_loc_bin(int huge, unsigned idx) { return huge ? (void*)&LOC.hugeCache.bin[idx] : (void*)&LOC.largeCache.bin[idx]; }
+void* vp_loc_bitmask(int huge) { return huge ? (void*)&LOC.hugeCache.bitMask : (void*)&LOC.largeCache.bitMask; }
+void vp_lmb_link(void* p, void* next, void* prev) { ((LargeMemoryBlock*)p)->next = (LargeMemoryBlock*)next; ((LargeMemoryBlock*)p)->prev = (LargeMemoryBlock*)prev; }
+void* vp_lmb_next(void* p) { return ((LargeMemoryBlock*)p)->next; }
 }
